@@ -146,8 +146,11 @@ def evaluate(x, env):
         return int(x)
     if isinstance(x, (np.floating,)):
         return float(x)
-    if isinstance(x, complex):
+    if isinstance(x, (complex, np.complexfloating)):
+        x = complex(x)
         return {'re': x.real, 'im': x.imag}
+    if isinstance(x, (np.bool_,)):
+        return bool(x)
     return x
 
 
